@@ -506,4 +506,14 @@ theorem nodup_functionOpts : ∀ (a : Assoc) (ign : List Key), NodupKeys (functi
       simp only [functionOpts, hp, if_false, NodupKeys, Assoc.keys, List.nodup_cons]
       exact ⟨hnot, ih⟩
 
+theorem keyTransform_ok_shape {key : Key} {p : List Key} (h : keyTransform key = .ok p) :
+    p ≠ [] ∧ p.length ≤ 3 := by
+  unfold keyTransform at h
+  simp only [] at h
+  split at h
+  · cases h
+  · cases h
+    exact ⟨splitSlash_ne_nil key, by omega⟩
+
+
 end Config
